@@ -560,6 +560,59 @@ def judge_same_process_sequence(rec, rnd, tmp, k):
     shutil.rmtree(root, ignore_errors=True)
 
 
+ROLLBACK_CHILD = """
+import os, shutil, sys
+args = list(sys.argv)
+sys.path.insert(0, args[1])
+os.chdir(args[2])
+from tally import cli
+def run(argv):
+    sys.argv = ['tally'] + argv
+    try:
+        cli.main()
+    except SystemExit:
+        pass
+run(['up', '--migrate', '-q'])
+# the user changes their mind: the CSV is restored from the backup, the converted file removed, settings.yaml edited by hand
+cfg = os.path.join(args[2], 'config')
+if os.path.exists(os.path.join(cfg, 'merchant_categories.csv.bak')):
+    shutil.move(os.path.join(cfg, 'merchant_categories.csv.bak'), os.path.join(cfg, 'merchant_categories.csv'))
+if os.path.exists(os.path.join(cfg, 'merchants.rules')):
+    os.remove(os.path.join(cfg, 'merchants.rules'))
+with open(os.path.join(cfg, 'settings.yaml'), 'w') as f:
+    f.write(args[3])
+run(args[4:])
+"""
+
+
+def judge_same_process_rollback(rec, rnd, tmp, k):
+    """One process migrates a budget, the user rolls the migration back and rewrites settings.yaml by hand, the same process runs `tally init` / `up --migrate`
+    again: what is appended to settings.yaml is appended to the file AS IT IS NOW - every line the user wrote is still there."""
+    root = os.path.join(tmp, 'rb%d' % k)
+    os.makedirs(os.path.join(root, 'config'))
+    os.makedirs(os.path.join(root, 'data'))
+    first = 'year: 2025\ndata_sources:\n  - name: Card\n    file: data/card.csv\n    format: "{date:%Y-%m-%d},{description},{amount}"\n'
+    edited = 'year: 2025\ntitle: Household budget (edited by hand)\ncurrency_format: "{amount} zl"\ndata_sources:\n  - name: Card\n    file: data/card.csv\n    format: "{date:%Y-%m-%d},{description},{amount}"\n'
+    with open(os.path.join(root, 'config', 'settings.yaml'), 'w') as f:
+        f.write(first)
+    with open(os.path.join(root, 'config', 'merchant_categories.csv'), 'w') as f:
+        f.write('Pattern,Merchant,Category,Subcategory\nNETFLIX,Netflix,Subscriptions,Streaming\n')
+    with open(os.path.join(root, 'data', 'card.csv'), 'w') as f:
+        f.write('Date,Description,Amount\n2025-01-03,NETFLIX.COM,15.99\n')
+    second = [['init'], ['up', '--migrate', '-q'], ['init', '.']][k % 3]
+    env = dict(os.environ, PYTHONDONTWRITEBYTECODE='1', NO_COLOR='1')
+    env.pop('TALLY_CONFIG', None)
+    p = subprocess.run([core.PY, '-c', ROLLBACK_CHILD, core.SRC, root, edited] + second, capture_output=True, text=True, stdin=subprocess.DEVNULL, env=env, timeout=180)
+    rec.case()
+    rec.count('commands_run', 2)
+    rec.count('same_process_rollback_sequences')
+    now = open(os.path.join(root, 'config', 'settings.yaml')).read()
+    if not now.startswith(edited):
+        rec.violation('settings-rewritten-from-an-earlier-reading', f'`up --migrate`, a manual roll-back with settings.yaml rewritten by hand, then `tally {" ".join(second)}` in the same '
+                      f'process: settings.yaml no longer starts with what the user wrote; it reads {now[:160]!r}', {'kind': 'same-process-rollback', 'second': second, 'exit': p.returncode})
+    shutil.rmtree(root, ignore_errors=True)
+
+
 def judge_init_sectionless_rules(rec, rnd, tmp, k, log):
     """A budget with rules in the legacy CSV AND a merchants.rules the user wrote that holds no [section] (transforms, variables, notes): `tally init` creates
     what is missing and touches neither of the two."""
@@ -679,6 +732,7 @@ def run(rec, shard, nshards, t):
             judge_symlinked_config_folder(rec, rnd, tmp, k, log)
             judge_symlinked_rules_csv(rec, rnd, tmp, k, log)
             judge_same_process_sequence(rec, rnd, tmp, k)
+            judge_same_process_rollback(rec, rnd, tmp, k)
         for k in range(shard, len(BROKEN_SETTINGS) * (1 if t == 'quick' else 3), nshards):
             judge_init_unreadable_settings(rec, rnd, tmp, k, log)
             judge_output_location_blocked(rec, tmp, k, log)
@@ -703,6 +757,7 @@ def replay(rec, case):
             judge_symlinked_config_folder(rec, rnd, tmp, k, log)
             judge_symlinked_rules_csv(rec, rnd, tmp, k, log)
             judge_same_process_sequence(rec, rnd, tmp, k)
+            judge_same_process_rollback(rec, rnd, tmp, k)
             judge_init_unreadable_settings(rec, rnd, tmp, k, log)
             judge_output_location_blocked(rec, tmp, k, log)
     finally:
